@@ -14,11 +14,11 @@ def run(r):
                 ("F1", 3, AB, 16, [(s + i) % 16 for i in range(8)], {}),
                 ("F3", 3, AB, 32, [(s + i) % 32 for i in range(4)], {}),
                 ("NM", 3, AB, 8, [(s + i) % 8 for i in range(3)], {}),
-                ("HID2", 4, [97, 98, 99, 100], 8, [(s + i) % 8 for i in range(3)], {})]
+                ("HID2", 4, [97, 98, 99, 100], 8, [(s + i) % 8 for i in range(3)], {}), ("TLR", 4, [97, 98, 32, 120], 1, [0], {})]
         rnd = [(500, dict(maxlen=6, share=1, named=0)), (200, dict(maxlen=5, share=1, named=2, base=0, seed_off=1))]
     else:
         fams = [("HID", 3, ABXY, 1, [0], {}), ("CAT", 3, ABX, 2, [s % 2], {}), ("F1", 3, AB, 48, [(s + 7) % 48], {}),
-                ("HID2", 3, [97, 98, 99, 100, 120], 24, [(s + 3) % 24], {})]
+                ("HID2", 3, [97, 98, 99, 100, 120], 24, [(s + 3) % 24], {}), ("TLR", 3, [97, 98, 32], 1, [0], {})]
         rnd = [(100, dict(maxlen=5, share=1, named=0))]
     parsefam.run_plan(r, {"props": ["C02"], "families": fams, "random": rnd})
     if th:
